@@ -1914,7 +1914,31 @@ func monitorC07(line string, ops []GenOp, s *Shard) (fails []Failure) {
 		return append(fails, Failure{"C07.decodes", line, derr.Error()})
 	}
 	if !logsClose(rec1.Log, rec2.Log) {
-		fails = append(fails, Failure{"C07.direct-equals-via-bytes", line, fmt.Sprintf("rasteriser logs differ: direct %d entries, via bytes %d entries; first difference: %s", len(rec1.Log), len(rec2.Log), firstDiff(rec1.Log, rec2.Log))})
+		// "up to quantisation": the bytes hold a program Q(p) that equals p up to the format's quantisation (C01's
+		// tolerances, call by call), and rendering the bytes must be EXACTLY rendering Q(p) directly.  A register
+		// value the format cannot hold (a subnormal stop offset becoming 0, a NaN becoming an infinity) may
+		// legitimately change what is drawn; anything else is a violation.
+		direct := &Recorder{}
+		var selsP [][2]uint8
+		if _, p := runGenInto(direct, ops, &selsP); p != "" {
+			return append(fails, Failure{"C07.no-panic", line, p})
+		}
+		decoded, derr, p := Decode(nil, bs)
+		if p != "" || derr != nil {
+			return append(fails, Failure{"C07.decodes", line, fmt.Sprint(derr, p)})
+		}
+		if msg := cmpCalls(direct.Calls, decoded, func(int) bool { return true }, false); msg != "" {
+			return append(fails, Failure{"C07.direct-equals-via-bytes", line, fmt.Sprintf("rasteriser logs differ (direct %d entries, via bytes %d; first difference: %s) and the decoded program is not the original up to quantisation: %s", len(rec1.Log), len(rec2.Log), firstDiff(rec1.Log, rec2.Log), msg)})
+		}
+		rec3 := &RecRaster{}
+		var z3 render.Renderer
+		z3.SetRasterizer(rec3, rect)
+		for _, c := range decoded {
+			c.Apply(&z3)
+		}
+		if strings.Join(rec3.Log, ";") != strings.Join(rec2.Log, ";") {
+			fails = append(fails, Failure{"C07.direct-equals-via-bytes", line, fmt.Sprintf("rendering the bytes differs from rendering the decoded program directly: first difference: %s", firstDiff(rec3.Log, rec2.Log))})
+		}
 	}
 	return
 }
